@@ -1,6 +1,7 @@
 package c27shared
 
 import (
+	"fmt"
 	"go/ast"
 	"go/parser"
 	"go/token"
@@ -88,7 +89,236 @@ func containsNode(root, n ast.Node) bool {
 	return found
 }
 
+// opList renders a regenerated operation list.
+func opList(f *hc.Facts, name string, ops []int, legend string) {
+	var ss []string
+	for _, o := range ops {
+		ss = append(ss, fmt.Sprint(o))
+	}
+	f.Raw("def " + name + " : List Nat := [" + strings.Join(ss, ", ") + "] -- " + legend)
+}
+
+// structuredFacts emits, for the order-sensitive parts of the pool, the sequence of operations as the
+// source has them (statement order, nesting in a conditional, select case lists); the Lean model
+// computes its configuration from these lists (`TdModel/Model/C27.lean`).
+func structuredFacts(f *hc.Facts) {
+	stmtsSrc := func(list []ast.Stmt) []string {
+		var out []string
+		for _, st := range list {
+			if ls, ok := st.(*ast.LabeledStmt); ok {
+				st = ls.Stmt
+			}
+			out = append(out, src(f, st))
+		}
+		return out
+	}
+	// DC.dead
+	var deadOps []int
+	if d := f.FuncDecl("pool", "DC.dead"); d != nil && d.Body != nil {
+		for _, st := range d.Body.List {
+			s := src(f, st)
+			switch {
+			case strings.HasPrefix(s, "if r.deleted.Swap(true)") && strings.Contains(s, "return"):
+				deadOps = append(deadOps, 1)
+			case s == "c.mu.Lock()":
+				deadOps = append(deadOps, 2)
+			case s == "defer c.mu.Unlock()":
+				deadOps = append(deadOps, 3)
+			case s == "c.total--":
+				deadOps = append(deadOps, 4)
+			case s == "r.dead.Signal()":
+				deadOps = append(deadOps, 5)
+			case s == "c.stuck.Reset()":
+				deadOps = append(deadOps, 6)
+			case strings.HasPrefix(s, "if ") && strings.Contains(s, "c.stuck.Reset()"):
+				deadOps = append(deadOps, 106)
+			case strings.HasPrefix(s, "if ") && strings.Contains(s, "r.dead.Signal()"):
+				deadOps = append(deadOps, 105)
+			case strings.HasPrefix(s, "if ") && strings.Contains(s, "c.total--"):
+				deadOps = append(deadOps, 104)
+			}
+		}
+	}
+	opList(f, "deadOps", deadOps, "DC.dead top level: 1 deleted.Swap guard 2 mu.Lock 3 defer mu.Unlock 4 total-- 5 dead.Signal 6 stuck.Reset; 10x = the operation only inside a conditional")
+	// DC.acquire
+	var createOps, waitOps, stuckOps, createSel, waitSel []int
+	if a := f.FuncDecl("pool", "DC.acquire"); a != nil && a.Body != nil {
+		selCases := func(sel *ast.SelectStmt, creation bool) []int {
+			var out []int
+			for _, cc := range sel.Body.List {
+				c := cc.(*ast.CommClause)
+				body := strings.Join(stmtsSrc(c.Body), ";")
+				comm := ""
+				if c.Comm != nil {
+					comm = src(f, c.Comm)
+				}
+				switch {
+				case comm == "<-ctx.Done()" && creation && strings.HasPrefix(body, "c.releaseWhenReady(conn)"):
+					out = append(out, 70)
+				case comm == "<-ctx.Done()" && creation:
+					out = append(out, 71)
+				case comm == "<-ctx.Done()":
+					out = append(out, 84)
+				case comm == "<-c.ctx.Done()" && creation:
+					out = append(out, 72)
+				case comm == "<-c.ctx.Done()":
+					out = append(out, 85)
+				case comm == "<-conn.Ready()" && strings.Contains(body, "if !c.alive(conn) {"):
+					out = append(out, 73)
+				case comm == "<-conn.Ready()":
+					out = append(out, 74)
+				case comm == "<-conn.Dead()":
+					out = append(out, 75)
+				case comm == "conn := <-ch" && strings.Contains(body, "if !c.alive(conn) {"):
+					out = append(out, 80)
+				case comm == "conn := <-ch":
+					out = append(out, 81)
+				case comm == "<-c.stuck.Ready()":
+					out = append(out, 83)
+				case strings.HasPrefix(comm, "<-") && !strings.Contains(comm, "."):
+					out = append(out, 82) // a captured channel variable
+				default:
+					out = append(out, 0)
+				}
+			}
+			return out
+		}
+		giveup := func(list []ast.Stmt) []int {
+			var out []int
+			for _, st := range list {
+				s := src(f, st)
+				switch {
+				case s == "c.freeReq.delete(key)":
+					out = append(out, 40)
+				case strings.HasPrefix(s, "select {") && strings.Contains(s, "<-ch"):
+					out = append(out, 41)
+				}
+			}
+			return out
+		}
+		for _, st := range a.Body.List {
+			if ls, ok := st.(*ast.LabeledStmt); ok {
+				st = ls.Stmt
+			}
+			s := src(f, st)
+			switch x := st.(type) {
+			case *ast.IfStmt:
+				if src(f, x.Cond) == "c.max < 1 || c.total < c.max" {
+					for _, in := range x.Body.List {
+						is := src(f, in)
+						switch {
+						case is == "c.total++":
+							createOps = append(createOps, 21)
+						case is == "c.mu.Unlock()":
+							createOps = append(createOps, 22)
+						case is == "id := c.nextConn.Inc()":
+							createOps = append(createOps, 23)
+						case is == "conn := c.createConnection(id)":
+							createOps = append(createOps, 24)
+						}
+						if sel, ok := in.(*ast.SelectStmt); ok {
+							createOps = append(createOps, 25)
+							createSel = selCases(sel, true)
+						}
+					}
+				}
+			case *ast.AssignStmt:
+				switch s {
+				case "key, ch := c.freeReq.request()":
+					waitOps = append(waitOps, 30)
+				case "stuck := c.stuck.Ready()":
+					waitOps = append(waitOps, 31)
+				}
+			case *ast.ExprStmt:
+				switch s {
+				case "c.mu.Unlock()":
+					if len(waitOps) > 0 {
+						waitOps = append(waitOps, 32)
+					}
+				case "c.freeReq.delete(key)":
+					waitOps = append(waitOps, 40)
+				}
+			case *ast.SelectStmt:
+				if strings.Contains(s, "case conn := <-ch:") {
+					waitOps = append(waitOps, 33)
+					waitSel = selCases(x, false)
+					for _, cc := range x.Body.List {
+						c := cc.(*ast.CommClause)
+						if c.Comm != nil && (src(f, c.Comm) == "<-stuck" || src(f, c.Comm) == "<-c.stuck.Ready()") {
+							stuckOps = giveup(c.Body)
+						}
+					}
+				} else if strings.Contains(s, "<-ch") {
+					waitOps = append(waitOps, 41)
+				}
+			}
+		}
+	}
+	opList(f, "acqCreateOps", createOps, "acquire, body of `if c.max < 1 || c.total < c.max`: 21 total++ 22 mu.Unlock 23 nextConn.Inc 24 createConnection 25 select")
+	opList(f, "acqCreateSelect", createSel, "creation select cases: 70 ctx.Done→releaseWhenReady 71 ctx.Done (plain return) 72 c.ctx.Done 73 Ready+alive check 74 Ready (no check) 75 Dead")
+	opList(f, "acqWaitOps", waitOps, "acquire, third case, top level: 30 freeReq.request 31 stuck := c.stuck.Ready() 32 mu.Unlock 33 select 40 freeReq.delete 41 non-blocking poll of ch")
+	opList(f, "acqWaitSelect", waitSel, "waiter select cases: 80 ch+alive check 81 ch (no check) 82 captured stuck channel 83 c.stuck.Ready() evaluated in the select 84 ctx.Done 85 c.ctx.Done")
+	opList(f, "acqStuckOps", stuckOps, "stuck branch: 40 freeReq.delete 41 non-blocking poll of ch")
+	var ccOps []int
+	if cc := f.FuncDecl("pool", "DC.createConnection"); cc != nil && cc.Body != nil {
+		for _, st := range cc.Body.List {
+			s := src(f, st)
+			switch {
+			case s == "c.total++":
+				ccOps = append(ccOps, 21)
+			case s == "c.mu.Lock()":
+				ccOps = append(ccOps, 2)
+			case strings.HasPrefix(s, "c.grp.Go("):
+				ccOps = append(ccOps, 26)
+			}
+		}
+	}
+	opList(f, "createConnOps", ccOps, "createConnection top level: 2 mu.Lock 21 total++ 26 grp.Go(Run)")
+	var trOps []int
+	if tr := f.FuncDecl("pool", "reqMap.transfer"); tr != nil && tr.Body != nil {
+		for _, st := range tr.Body.List {
+			s := src(f, st)
+			switch {
+			case s == "r.mux.Lock()":
+				trOps = append(trOps, 50)
+			case s == "delete(r.m, k)":
+				trOps = append(trOps, 51)
+			case s == "ch <- c":
+				trOps = append(trOps, 52)
+			case s == "close(ch)":
+				trOps = append(trOps, 53)
+			case s == "r.mux.Unlock()":
+				trOps = append(trOps, 54)
+			}
+		}
+	}
+	opList(f, "transferOps", trOps, "reqMap.transfer top level: 50 mux.Lock 51 delete(r.m,k) 52 ch <- c 53 close(ch) 54 mux.Unlock")
+	var bgOps []int
+	if rw := f.FuncDecl("pool", "DC.releaseWhenReady"); rw != nil && rw.Body != nil {
+		ast.Inspect(rw.Body, func(n ast.Node) bool {
+			c, ok := n.(*ast.CommClause)
+			if !ok || c.Comm == nil || src(f, c.Comm) != "<-conn.Ready()" {
+				return true
+			}
+			for _, st := range c.Body {
+				s := src(f, st)
+				switch {
+				case s == "c.release(conn)":
+					bgOps = append(bgOps, 60)
+				case strings.Contains(s, "c.free = append(c.free"):
+					bgOps = append(bgOps, 61)
+				case s == "c.mu.Lock()" || s == "c.mu.Unlock()":
+					bgOps = append(bgOps, 2)
+				}
+			}
+			return false
+		})
+	}
+	opList(f, "bgReadyOps", bgOps, "releaseWhenReady, case <-conn.Ready(): 60 c.release(conn) 61 c.free = append(c.free, …) 2 mu.Lock/Unlock")
+}
+
 func poolFacts(f *hc.Facts) {
+	structuredFacts(f)
 	acq := f.FuncDecl("pool", "DC.acquire")
 	if acq == nil || acq.Body == nil {
 		for _, n := range []string{"handoutSites", "guardedHandoutSites", "stuckCapturedUnderMu", "createCancelReleases", "limitGuard", "aliveChecksDead"} {
